@@ -1150,6 +1150,10 @@ def poly_from_json(js):
     return [((pfr(a), pfr(b)), tuple(e)) for a, b, e in js]
 
 
+_RET = []          # arrays computed by the user's callable during the last wrapper call
+_SAMPLE_TIE = []   # (case, conv, model line, real shape, real tokens)
+
+
 def make_callable(case):
     """python callable of the requested calling convention computing the polynomial"""
     import odl
@@ -1162,6 +1166,12 @@ def make_callable(case):
     def coef(a, b):
         return complex(float(a), float(b)) if cplx else float(a)
 
+    def rec(v):
+        # what the user's code computed on the input ODL handed to it (for the model tie)
+        if len(_RET) < 64:
+            _RET.append(np.array(v))
+        return v
+
     def expr(x, pl=poly):
         tot = None
         for (a, b), exps in pl:
@@ -1173,45 +1183,45 @@ def make_callable(case):
         return tot
 
     if ck == 'oop':
-        return lambda x: expr(x)
+        return lambda x: rec(expr(x))
     if ck == 'ip':
         def f_ip(x, out):
-            out[:] = expr(x)
+            out[:] = rec(expr(x))
         return f_ip
     if ck == 'dual':
         def f_dual(x, out=None):
             if out is None:
-                return expr(x)
-            out[:] = expr(x)
+                return rec(expr(x))
+            out[:] = rec(expr(x))
         return f_dual
     if ck == 'dual_kw':
         def f_dual_kw(x, *, out=None):
             if out is None:
-                return expr(x)
-            out[:] = expr(x)
+                return rec(expr(x))
+            out[:] = rec(expr(x))
         return f_dual_kw
     if ck in ('vec', 'vec_noot', 'vec_branch'):
         def scalar_f(x):
             # x: array of the d coordinates of ONE point; plain python control flow
             if ck == 'vec_branch' and not (x[0] < Fr(case['thr'])):
                 return expr(x, poly2)
-            return expr(x)
+            return rec(expr(x))
         if ck == 'vec_noot':
             return odl.util.vectorize(scalar_f)
         return odl.util.vectorize(otypes=[case['dtype']])(scalar_f)
     if ck == 'obj':
         class Obj(object):
             def __call__(self, x):
-                return expr(x)
+                return rec(expr(x))
         return Obj()
     if ck == 'obj_ip':
         class ObjIp(object):
             def __call__(self, x, out):
-                out[:] = expr(x)
+                out[:] = rec(expr(x))
         return ObjIp()
     if ck == 'kwargs':
         def f_kw(x, c=0.0):
-            return expr(x) + c
+            return rec(expr(x) + c)
         return f_kw
     if ck == 'plain1d':
         # 1d function written in terms of x, not x[0]
@@ -1221,7 +1231,7 @@ def make_callable(case):
 
             def __getitem__(self, j):
                 return self.x
-        return lambda x: expr(X(x))
+        return lambda x: rec(expr(X(x)))
     if ck == 'ufunc1d':
         return {'negative': np.negative, 'square': np.square}[case['ufunc']]
     raise KeyError(ck)
@@ -1297,6 +1307,61 @@ def samp_configs(ctx):
                         case['ufunc'] = rng.choice(['negative', 'square'])
                     out.append(case)
     return out
+
+
+TIE_KIND = {'oop': 'oopOnly', 'obj': 'oopOnly', 'kwargs': 'oopOnly', 'plain1d': 'oopOnly',
+            'dual': 'dual', 'dual_kw': 'dual', 'ip': 'ipOnly', 'obj_ip': 'ipOnly'}
+
+
+def sample_tie(case, conv, shape, npts, result, toks):
+    """Queue one wrapper call for the comparison with `Sampling.sample` of the model: the array
+    the user's code computed (recorded inside the real call) goes to the driver, which applies the
+    wrapper's dispatch / reshape / broadcast / assignment logic; its answer must be the array the
+    real wrapper delivered."""
+    if case['ck'] not in TIE_KIND or conv.startswith('direct') or not _RET:
+        return
+    ret = _RET[-1]
+    base = conv.split('+')[0]
+    inp = 'mesh' if base in ('element', 'mesh') else base
+    s_shape = list(shape) if inp == 'mesh' else [npts] if inp == 'array' else [1]
+    vals = [num_pair(z) for z in np.asarray(ret).ravel(order='C').tolist()]
+    if any(v is None for v in vals):
+        return
+    line = 'sample kind={} out={} d={} inp={} s={} rshape={} r={}'.format(
+        TIE_KIND[case['ck']], int(conv.endswith('+out')), case['d'], inp,
+        ','.join(str(n) for n in s_shape), ','.join(str(n) for n in ret.shape) or '-',
+        ','.join(ctok(v) for v in vals))
+    # which hypothesis form of C15.sampling_paths_collocate the recorded array has
+    rs = list(ret.shape)
+    if rs == []:
+        form = 'const'
+    elif case['d'] == 1 and rs == [1] + s_shape:
+        form = 'lead1d'
+    elif len(rs) == len(s_shape) and all(a in (1, b) for a, b in zip(rs, s_shape)):
+        form = 'bcast-full' if rs == s_shape else 'bcast-partial'
+    else:
+        form = 'other'
+    if inp == 'point':
+        real_shape, real_toks = [], toks[-1:]          # the last single-point call
+    else:
+        real_shape, real_toks = list(np.shape(result)), toks
+    _SAMPLE_TIE.append((dict(kind='sample-tie', ck=case['ck'], conv=conv, d=case['d'], form=form,
+                             usage=case['usage'], rshape=list(ret.shape), s=s_shape),
+                        line, real_shape, real_toks))
+
+
+def flush_sample_tie(ctx, with_model=True):
+    batch = list(_SAMPLE_TIE)
+    del _SAMPLE_TIE[:]
+    if not with_model or not batch:
+        return
+    outs = core.run_driver('C15', [b[1] for b in batch])
+    for (case, line, real_shape, real_toks), ans in zip(batch, outs):
+        ctx.hit('sample-tie/{}/{}'.format(TIE_KIND[case['ck']], case['conv']))
+        ctx.hit('retform/{}/{}'.format('point' if case['conv'] == 'point' else 'grid', case['form']))
+        impl = 'ok shape={} a={}'.format(','.join(str(n) for n in real_shape) or '-', ','.join(real_toks) or '-')
+        if ans != impl:
+            ctx.disagree(dict(case, line=line[:300]), impl[:300], ans[:300])
 
 
 def run_sampling_case(ctx, case):
@@ -1378,12 +1443,14 @@ def run_sampling_case(ctx, case):
     for conv in convs:
         if conv.startswith('array') and len(pts) == 1 and len(cv) == 1:
             continue  # a (1,)-array in 1d is a single point by the documented input rules
+        del _RET[:]
         try:
             with warnings.catch_warnings():
                 warnings.simplefilter('ignore')
                 r = run_conv(conv)
             status = 'ok'
             toks = flat_tokens(r, dt)
+            sample_tie(case, conv, shape, len(pts), r, toks)
             if str(np.asarray(r).dtype) != dt and not (conv.startswith('direct') and case['ck'] == 'vec_noot'):
                 status = 'err:dtype:result dtype {} instead of {}'.format(np.asarray(r).dtype, dt)
         except Exception as e:  # noqa
@@ -1850,7 +1917,7 @@ def run_single_node_axis(ctx):
             ctx.violation(key + 'raised', '{}: {}'.format(type(ex).__name__, str(ex)[:200]), rc)
 
 
-def run_sampling(ctx):
+def run_sampling(ctx, with_model=True):
     run_alias_check(ctx)
     run_bounds_check(ctx)
     run_tuple_1d_plain(ctx)
@@ -1858,6 +1925,7 @@ def run_sampling(ctx):
     for case in samp_configs(ctx):
         run_sampling_case(ctx, case)
     run_vector_valued(ctx)
+    flush_sample_tie(ctx, with_model)
 
 
 # ---------------------------------------------------------------------------
@@ -1868,6 +1936,9 @@ MODEL_BRANCHES = ['axis/{}/{}'.format(s_, b) for s_ in 'ln' for b in ('lo', 'hi'
      'ops/single-node-axis'] + \
     ['dtype/' + vk for vk in sorted(set(v for _, v in VKINDS))] + \
     ['dispatch/{}/{}'.format(k, o) for k in ('plain', 'optional', 'required') for o in ('out', 'noout')] + \
+    ['retform/grid/' + f for f in ('bcast-full', 'bcast-partial', 'const', 'lead1d')] + \
+    ['sample-tie/{}/{}'.format(k, c) for k in ('oopOnly', 'dual', 'ipOnly')
+     for c in ('element', 'mesh', 'mesh+out', 'array', 'array+out', 'point')] + \
     ['input/accepted', 'input/rejected']
 
 
@@ -1907,7 +1978,7 @@ def search(ctx, broken):
         run_dispatch(ctx, with_model=False)
         run_input_classes(ctx, with_model=False)
         run_single_node_axis(ctx)
-        run_sampling(ctx)
+        run_sampling(ctx, with_model=False)
     finally:
         ctx.tier = saved
 
